@@ -90,6 +90,7 @@ func runDead(rc *core.RunCtx) {
 	}
 	senders := []*actor.PID{nil, actor.NewPID("local", "ext/1"), actor.NewPID("other:1", "ext/2")}
 	var all []dlSend
+	nilSent := false
 	scripts := make([][]dlSend, nclients)
 	nid := 0
 	for c := range scripts {
@@ -105,7 +106,8 @@ func runDead(rc *core.RunCtx) {
 			case 2:
 				s.target = actor.NewPID("local", "act/gone")
 			case 3:
-				s.target = actor.NewPID(fmt.Sprintf("10.0.0.%d:4000", 1+g.IntN(2)), "act/far")
+				// a foreign address; the id may well be one that exists locally
+				s.target = actor.NewPID(fmt.Sprintf("10.0.0.%d:4000", 1+g.IntN(2)), []string{"act/far", "act/live", "act/gone"}[g.IntN(3)])
 			case 4:
 				s.target = actor.NewPID("local", "act/live")
 			case 5:
@@ -118,7 +120,15 @@ func runDead(rc *core.RunCtx) {
 					s.target = actor.NewPID(d.PID.Address, d.PID.ID)
 				}
 			}
-			switch g.Pick(3, 2, 2, 1) {
+			switch g.Pick(3, 2, 2, 1, 1) {
+			case 4:
+				// an untyped nil message value (once per run, so that its events are attributable)
+				if nilSent || s.kind == 4 {
+					s.payload = fmt.Sprintf("text-%d", nid)
+				} else {
+					nilSent = true
+					s.payload = nil
+				}
 			case 0:
 				m := env.NewMsg(fmt.Sprintf("c%d", c), i)
 				s.payload = m
@@ -263,6 +273,29 @@ func runDead(rc *core.RunCtx) {
 				rc.Violate2(own, "dead-letter-count/event-forwarded-to-stopped-subscriber", "monitor %s never saw a DeadLetterEvent for the events forwarded to the stopped subscriber %s", m.Name, d.Name)
 				rc.Violate2("C12", "lifecycle-event-missing/dead-letter/event-forwarded-to-stopped-subscriber", "subscriber %s never saw a DeadLetterEvent for the events forwarded to the stopped subscriber %s", m.Name, d.Name)
 			}
+		}
+	}
+	// nothing but the messages addressed to it (local address, its id) reaches
+	// the live actor: not a message for a foreign address that carries its id
+	for _, d := range env.Dels {
+		if d.Actor != "act/live" {
+			continue
+		}
+		ok := d.Kind != dOther
+		if d.Kind == dUser {
+			ok = false
+			for _, s := range all {
+				if s.kind == 4 && s.payload == any(d.Msg) {
+					ok = true
+				}
+			}
+		}
+		if !ok {
+			what := d.Other
+			if d.Msg != nil {
+				what = d.Msg.String()
+			}
+			rc.Violate2(own, "undeliverable-message-delivered", "act/live received %s, which was not sent to it (sends to a foreign address or to other ids must surface as events, not reach a local actor)", what)
 		}
 	}
 	// live deliveries
